@@ -62,9 +62,15 @@ func (in *Interp) intrinsic(fn *ssa.Function, args []Value) (Value, bool) {
 		return in.harnessAPI(fn, args)
 	}
 	if isModulePath(pp) {
-		if pp == "github.com/b2broker/simplefix-go/utils" && fn.Name() == "NewTimer" {
-			// executed for real; the created timers are remembered for the harness API
-			return nil, false
+		if in.timerStub && fn.Name() == "TakeTimeout" && pp == modPath+"/utils" {
+			// harness-driven timer: block until the harness fires this timer
+			p := args[0].(*Value)
+			idx := in.timerIndex(p)
+			in.timerWaiting[idx]++
+			in.block(func() bool { return in.timerFired[idx] > 0 }, "Timer.TakeTimeout (stub) #"+strconv.Itoa(idx))
+			in.timerFired[idx]--
+			in.timerWaiting[idx]--
+			return nil, true
 		}
 		return nil, false
 	}
@@ -151,6 +157,32 @@ func (in *Interp) intrinsic(fn *ssa.Function, args []Value) (Value, bool) {
 			in.stub(name)
 			return in.fmtInt(args[0].(*Term), false), true
 		}
+	case "strconv.AppendInt":
+		if b := args[2].(*Term); b.isC() && b.c == 10 {
+			in.stub(name)
+			return appendStr(args[0].(Slice), in.fmtInt(args[1].(*Term), true)), true
+		}
+	case "strconv.AppendUint":
+		if b := args[2].(*Term); b.isC() && b.c == 10 {
+			in.stub(name)
+			return appendStr(args[0].(Slice), in.fmtInt(args[1].(*Term), false)), true
+		}
+	case "strconv.AppendFloat":
+		in.stub(name)
+		r, _ := in.intrinsic(in.prog.ImportedPackage("strconv").Func("FormatFloat"), args[1:])
+		return appendStr(args[0].(Slice), r.(Str)), true
+	case "strconv.FormatBool":
+		in.stub(name)
+		if in.ex.decide(args[0].(*Term)) {
+			return mkStr("true"), true
+		}
+		return mkStr("false"), true
+	case "time.Unix":
+		in.stub(name)
+		return in.mkTime(Bin("bvadd", Bin("bvmul", args[0].(*Term), C(64, 1000000000)), args[1].(*Term))), true
+	case "time.UnixMilli":
+		in.stub(name)
+		return in.mkTime(Bin("bvmul", args[0].(*Term), C(64, 1000000))), true
 	case "strconv.Atoi":
 		in.stub(name)
 		v, ok := in.parseInt(args[0].(Str), true)
@@ -439,6 +471,13 @@ func (in *Interp) intrinsic(fn *ssa.Function, args []Value) (Value, bool) {
 	return nil, false
 }
 
+func appendStr(dst Slice, s Str) Slice {
+	for _, b := range s.b {
+		dst = append(dst, b)
+	}
+	return dst
+}
+
 func strSlice(s Str) Slice {
 	r := make(Slice, len(s.b))
 	for i, b := range s.b {
@@ -655,7 +694,9 @@ func (in *Interp) mkTime(ns *Term) Value {
 func (in *Interp) timeNow() Value {
 	in.nowCount++
 	if !in.clockSym {
-		return in.mkTime(C(64, uint64(1_700_000_000_000_000_000+int64(in.nowCount)*1_000_000)))
+		t := C(64, uint64(1_700_000_000_000_000_000+int64(in.nowCount)*1_000_000))
+		in.nows = append(in.nows, t)
+		return in.mkTime(t)
 	}
 	v := in.ex.freshAux(64, "now")
 	if in.lastNow != nil {
@@ -665,6 +706,7 @@ func (in *Interp) timeNow() Value {
 	}
 	in.ex.addPC(Bin("bvslt", v, C(64, 1<<61)))
 	in.lastNow = v
+	in.nows = append(in.nows, v)
 	return in.mkTime(v)
 }
 
@@ -900,6 +942,9 @@ func (in *Interp) harnessAPI(fn *ssa.Function, args []Value) (Value, bool) {
 	case "ExploreSchedules":
 		in.schedExp = args[0].(*Term).isTrue()
 		return nil, true
+	case "PreemptionBound":
+		in.preemptBound = in.concrete(args[0].(*Term), "PreemptionBound")
+		return nil, true
 	case "Go":
 		in.spawn(args[0], nil, "harness")
 		return nil, true
@@ -913,10 +958,58 @@ func (in *Interp) harnessAPI(fn *ssa.Function, args []Value) (Value, bool) {
 			return true
 		}, "zzverif.WaitAll")
 		return nil, true
+	case "WaitAll2":
+		parked := in.concrete(args[0].(*Term), "WaitAll2")
+		in.block(func() bool {
+			for i, g := range in.gs[1:] {
+				if i < parked {
+					if !g.done && (g.waiting == nil || g.waiting()) {
+						return false // a parked goroutine is still runnable
+					}
+					continue
+				}
+				if !g.done {
+					return false
+				}
+			}
+			return true
+		}, "zzverif.WaitAll2")
+		return nil, true
 	case "Role":
 		r, _ := args[0].(Str).concrete()
 		in.cur.role = r
 		return nil, true
+	case "TimerStub":
+		in.timerStub = args[0].(*Term).isTrue()
+		return nil, true
+	case "Timers":
+		return C(64, uint64(len(in.timers))), true
+	case "TimerField":
+		i := in.concrete(args[0].(*Term), "TimerField")
+		name, _ := args[1].(Str).concrete()
+		return in.timerField(i, name), true
+	case "FireTimer":
+		i := in.concrete(args[0].(*Term), "FireTimer")
+		in.timerFired[i]++
+		return nil, true
+	case "TimerWaiting":
+		i := in.concrete(args[0].(*Term), "TimerWaiting")
+		return B(in.timerWaiting[i] > 0), true
+	case "Tick":
+		in.tickBudget++
+		return nil, true
+	case "NowAt":
+		i := in.concrete(args[0].(*Term), "NowAt")
+		if i < 1 || i > len(in.nows) {
+			return C(64, 0), true
+		}
+		return in.nows[i-1], true
+	case "Done":
+		i := in.concrete(args[0].(*Term), "Done")
+		if i+1 >= len(in.gs) {
+			return B(false), true
+		}
+		return B(in.gs[i+1].done), true
 	case "TimeOf":
 		// instant (ns) carried by a time.Time
 		return args[0].(Struct)[1], true
@@ -941,4 +1034,33 @@ func (in *Interp) panics(f Value) (res Value) {
 		in.invokeVal(f, nil)
 	}()
 	return
+}
+
+func (in *Interp) timerIndex(p *Value) int {
+	for i, t := range in.timers {
+		if t == p {
+			return i
+		}
+	}
+	in.timers = append(in.timers, p)
+	in.timerFired = append(in.timerFired, 0)
+	in.timerWaiting = append(in.timerWaiting, 0)
+	return len(in.timers) - 1
+}
+
+// timerField reads a field of the i-th utils.Timer by name (durations and instants as int64 ns).
+func (in *Interp) timerField(i int, name string) Value {
+	p := in.timers[i]
+	st := (*p).(Struct)
+	tt := in.timerType.Underlying().(*types.Struct)
+	for k := 0; k < tt.NumFields(); k++ {
+		if tt.Field(k).Name() == name {
+			v := st[k]
+			if s, ok := v.(Struct); ok { // time.Time
+				return s[1]
+			}
+			return v
+		}
+	}
+	panic(engineError{"no Timer field " + name})
 }
